@@ -147,20 +147,6 @@ theorem GInv.frontStep {w : World} (hp : GInv ex fr w) {g : Nat} {gd : Guard} (h
         rw [queued_setGuardQ hg, if_pos rfl]; exact hkout
       · intro hx; exact hp.no_grant_of_queued hq0 hx
 
-theorem GInv.guardSignal : ∀ (fuel : Nat) {w : World}, GInv ex fr w → ∀ g, GInv ex fr (guardSignal fuel w g) := by
-  intro fuel
-  induction fuel with
-  | zero => intro w h g; rw [guardSignal_zero]; exact h.fail _
-  | succ fuel ih =>
-    intro w h g
-    rw [guardSignal_succ]
-    split
-    · exact h
-    · rename_i gd hg
-      exact GInv.foldl (fun w o hw => ih hw o) _ (h.frontStep hg)
-
-theorem GInv.signal {w : World} (h : GInv ex fr w) (g : Nat) : GInv ex fr (signal w g) := GInv.guardSignal 8 h g
-
 theorem GInv.guardRemove_fst {w : World} (hp : GInv ex fr w) (g : Nat) (p : Pid) : GInv ex fr (guardRemove w g p).1 := by
   cases hg : w.guards[g]? with
   | none => rw [guardRemove_none hg]; exact hp
@@ -282,5 +268,32 @@ theorem GInv.condSignal_fst {w : World} (hp : GInv ex fr w) (g : Nat) (hcg : ∃
           obtain ⟨i, hi1, hi2, rfl⟩ := (HashHeap.mem_liveTags _ _).1 hlive
           have := (hwf.keyOk i hi1 hi2).1; omega
         rw [List.map_congr_left hkeys]; exact hnd
+
+/-- what a signal does at the guard itself: the front step, or — forwarded to the guard of a condition — the condition signal -/
+theorem GInv.ownStep {w : World} (hp : GInv ex fr w) (fwd : Bool) {g : Nat} {gd : Guard} (hg : w.guards[g]? = some gd) :
+    GInv ex fr (ownStep fwd w g gd) := by
+  unfold S3.ownStep
+  split
+  · rename_i h
+    simp only [Bool.and_eq_true] at h
+    exact hp.condSignal_fst g (hasHandler_iff.1 h.2)
+  · exact hp.frontStep hg
+
+theorem GInv.guardSignalF : ∀ (fuel : Nat) (fwd : Bool) {w : World}, GInv ex fr w → ∀ g, GInv ex fr (guardSignalF fwd fuel w g) := by
+  intro fuel
+  induction fuel with
+  | zero => intro fwd w h g; rw [guardSignalF_zero]; exact h.fail _
+  | succ fuel ih =>
+    intro fwd w h g
+    rw [guardSignalF_succ]
+    split
+    · exact h
+    · rename_i gd hg
+      exact GInv.foldl (fun w o hw => ih true hw o) _ (h.ownStep fwd hg)
+
+theorem GInv.guardSignal (fuel : Nat) {w : World} (h : GInv ex fr w) (g : Nat) : GInv ex fr (guardSignal fuel w g) :=
+  GInv.guardSignalF fuel false h g
+
+theorem GInv.signal {w : World} (h : GInv ex fr w) (g : Nat) : GInv ex fr (signal w g) := GInv.guardSignal 8 h g
 
 end CimbaModel.Sim.S3
